@@ -112,7 +112,7 @@ void LabelHandle(tStrComp const* pName, LargeWord Value, Boolean ForceGlobal) {
             return;
         }
 
-        pLabelElement->Offset = Value;
+        pLabelElement->Offset = Value + UnnamedStructOffset();
         if (AddStructElem(pInnermostNamedStruct->StructRec, pLabelElement)) {
             pLabelStructEntry = AddStructSymbol(pLabelElement->pElemName, Value);
         }
@@ -150,7 +150,7 @@ void LabelHandle(tStrComp const* pName, LargeWord Value, Boolean ForceGlobal) {
 void LabelModify(LargeWord OldValue, LargeWord NewValue) {
     if (OldValue == LabelValue) {
         if (pLabelElement) {
-            pLabelElement->Offset = NewValue;
+            pLabelElement->Offset = NewValue + UnnamedStructOffset();
             if (pLabelStructEntry) {
                 ChangeSymbol(pLabelStructEntry, NewValue + StructParentOffset());
             }
